@@ -146,6 +146,83 @@ fn scenario(pr: &Params) -> Verdict {
     e3::finish(v)
 }
 
+/// Long uninterrupted runs on one side: a pipelining client queues `n` requests before the proxy
+/// polls that side (and the echo worker answers all of them at once), so that any batching /
+/// burst logic inside the proxy loop is driven past its limits.
+fn volume_scenario(n: usize, capture: bool, policy: u8) -> Verdict {
+    world::reset(world::WorldCfg { nested_env: false, yields: false, select: true, policy, coop: false });
+    let client = e3::raw_conn("C0");
+    let worker = e3::raw_conn("W0");
+    let cap = e3::raw_conn("CAP");
+    client.send(&rc::handshake("DEALER", Some(b"C0")));
+    worker.send(&rc::handshake("REP", Some(b"W0")));
+    cap.send(&rc::handshake("PULL", Some(b"CAP")));
+    client.gate("go");
+    let mut all = Vec::new();
+    for j in 0..n {
+        all.extend(rc::encode_message(&[vec![], format!("r{:05}", j).into_bytes()]));
+    }
+    // one big chunk: everything is readable at once
+    client.send(&all);
+    e3::make_echo_peer(worker);
+    for c in [client, worker, cap] {
+        world::reserve_tap(c.from_lib, 64 * n + 4096);
+    }
+    let frontend = RouterSocket::new();
+    let backend = DealerSocket::new();
+    let capture_sock = PushSocket::new();
+    let (fbe, bbe, cbe) = (frontend.backend(), backend.backend(), capture_sock.backend());
+    let returned = std::rc::Rc::new(std::cell::RefCell::new(None::<String>));
+    let ret2 = returned.clone();
+    world::spawn_app("setup+proxy", async move {
+        let _ = e3::attach_raw(bbe, worker).await;
+        if capture {
+            let _ = e3::attach_raw(cbe, cap).await;
+        }
+        let _ = e3::attach_raw(fbe, client).await;
+        world::set_cond("go");
+        // the requests pile up before the proxy starts polling
+        world::idle().await;
+        let capbox: Option<Box<dyn zeromq::CaptureSocket>> = if capture { Some(Box::new(capture_sock)) } else { drop(capture_sock); None };
+        let r = zeromq::proxy(frontend, backend, capbox).await;
+        *ret2.borrow_mut() = Some(format!("{:?}", r.map_err(|e| e3::err_class(&e))));
+    });
+    let end = world::run(e3::HORIZON * 40);
+    let mut v = Verdict::default();
+    v.truncated = end != world::RunEnd::Quiescent;
+    let what = format!("proxy(ROUTER, DEALER, capture={}) with one client pipelining {} requests before the proxy polls, one echo worker, policy {}", capture, n, policy);
+    for p in world::panics() {
+        v.violate("panic", format!("{}: {}", what, p));
+    }
+    if v.truncated {
+        v.violate("spin", format!("{}: no quiescence", what));
+    }
+    if let Some(r) = returned.borrow().as_ref() {
+        v.violate("proxy-returned", format!("{}: proxy() returned {}", what, r));
+    }
+    let wt = worker.tap_messages();
+    let ct = client.tap_messages();
+    let want_w: Vec<Vec<Vec<u8>>> = (0..n).map(|j| vec![b"C0".to_vec(), vec![], format!("r{:05}", j).into_bytes()]).collect();
+    let want_c: Vec<Vec<Vec<u8>>> = (0..n).map(|j| vec![vec![], format!("r{:05}", j).into_bytes()]).collect();
+    let first_diff = |got: &Vec<Vec<Vec<u8>>>, want: &Vec<Vec<Vec<u8>>>| -> String {
+        let i = got.iter().zip(want.iter()).position(|(a, b)| a != b).unwrap_or(got.len().min(want.len()));
+        format!("{} of {} messages; first difference at #{}: got {}, expected {}", got.len(), want.len(), i, got.get(i).map(|m| rc::show_frames(m)).unwrap_or_else(|| "nothing".into()), want.get(i).map(|m| rc::show_frames(m)).unwrap_or_else(|| "nothing".into()))
+    };
+    if wt != want_w {
+        v.violate("long-run/request-lost-duplicated-or-reordered", format!("{}: the worker's wire carries {}", what, first_diff(&wt, &want_w)));
+    } else if ct != want_c {
+        v.violate("long-run/reply-lost-duplicated-or-reordered", format!("{}: the client's wire carries {}", what, first_diff(&ct, &want_c)));
+    }
+    if capture && v.violations.is_empty() {
+        let n_cap = cap.tap_messages().len();
+        if n_cap != 2 * n {
+            v.violate("long-run/capture-incomplete", format!("{}: the capture wire carries {} messages, expected {}", what, n_cap, 2 * n));
+        }
+    }
+    v.outcome_hash = rc::fnv(format!("{}:{}", wt.len(), ct.len()).as_bytes());
+    e3::finish(v)
+}
+
 fn pj(p: &Params) -> Value {
     json!({"clients": p.clients, "workers": p.workers, "capture": p.capture, "policy": p.policy})
 }
@@ -165,6 +242,10 @@ pub fn run(tier: Tier, replay: Option<String>) -> i32 {
     if let Some(path) = replay {
         let v: Value = serde_json::from_str(&std::fs::read_to_string(&path).expect("read")).expect("json");
         return crate::replay::replay_e3(&v, |p| {
+            if p["scenario"] == "volume" {
+                let (n, c, pol) = (p["n"].as_u64()? as usize, p["capture"].as_bool()?, p["policy"].as_u64()? as u8);
+                return Some(std::sync::Arc::new(move || volume_scenario(n, c, pol)) as zvcore::explore::Scenario);
+            }
             let pr = pf(p)?;
             Some(std::sync::Arc::new(move || scenario(&pr)) as zvcore::explore::Scenario)
         });
@@ -182,13 +263,21 @@ pub fn run(tier: Tier, replay: Option<String>) -> i32 {
             }
         }
     }
+    // long uninterrupted runs on one side (not exhaustive in n: a scale family, default schedules + single deviations)
+    for n in tier.pick(vec![130usize, 1100, 2100], vec![130, 300, 1100, 2100, 5000]) {
+        for capture in [false, true] {
+            for policy in 0..3u8 {
+                jobs.push(e3::job(format!("C15/volume/{}/cap{}/policy{}", n, capture, policy), json!({"scenario":"volume","n":n,"capture":capture,"policy":policy}), if n <= 300 { 1 } else { 0 }, 2_000, move || volume_scenario(n, capture, policy)));
+            }
+        }
+    }
     e3::run_jobs_into(&mut ck, jobs, false);
     let ex = ck.coverage.get("e3_executions").and_then(|v| v.as_u64()).unwrap_or(0);
     ck.cov("states", ck.coverage.get("e3_distinct_outcomes").and_then(|v| v.as_u64()).unwrap_or(0).max(1));
     ck.cov("transitions", ex);
     ck.cov("traces_validated_against_impl", ex);
     ck.cov("exhaustive", ck.coverage.get("e3_scenarios_capped").and_then(|v| v.as_u64()) == Some(0));
-    ck.cov("explanation", "the real proxy(RouterSocket, DealerSocket, capture) with capture in {none, PushSocket with a raw PULL peer}, 1-2 raw REQ-like clients (2 requests each, payloads of 1-3 frames incl. empty frames) and 1-2 raw REP-like echo workers, under every schedule within the deviation bound from 3 default policies INCLUDING both select! branch orders at every iteration (choice point through the vendored futures-util seam), yield points and deliveries landing inside pipe reads (both sides ready in the same poll). Oracle from the reference-decoded wires: every request appears exactly once on some worker's wire as [client-id, \"\", payload...], per client in order; every client's wire carries exactly the echoes of its own requests as [\"\", payload...]; the capture wire holds a copy of each forwarded message (both directions); proxy() does not return. states = distinct observed outcomes.");
+    ck.cov("explanation", "the real proxy(RouterSocket, DealerSocket, capture) with capture in {none, PushSocket with a raw PULL peer}, 1-2 raw REQ-like clients (2 requests each, payloads of 1-3 frames incl. empty frames) and 1-2 raw REP-like echo workers, under every schedule within the deviation bound from 3 default policies INCLUDING both select! branch orders at every iteration (choice point through the vendored futures-util seam), yield points and deliveries landing inside pipe reads (both sides ready in the same poll). Oracle from the reference-decoded wires: every request appears exactly once on some worker's wire as [client-id, \"\", payload...], per client in order; every client's wire carries exactly the echoes of its own requests as [\"\", payload...]; the capture wire holds a copy of each forwarded message (both directions); proxy() does not return. Plus a scale family: one client pipelining 130 / 1100 / 2100 (thorough: up to 5000) requests before the proxy polls that side, one echo worker answering all at once — every request and reply forwarded exactly once, in order, capture complete (drives any batching logic in the proxy loop past typical limits such as 128, 1000, 2048). states = distinct observed outcomes.");
     ck.assume("requests are released once all workers are attached (forwarding, not routing without workers, is the subject)");
     ck.conclude()
 }
